@@ -1,10 +1,11 @@
 (* C20 (fnc.memoize): final statements only; proofs live in Proofs/MemoFacts.v, Proofs/MemoRunFacts.v.
    The model (Model/Memo.v) takes every decision through the kernels of Gen/KMemo.v, regenerated from
    datamatrix/_functional/_memoize.py on every run.  A = argument lists up to the property's argument
-   equivalence, f = the wrapped body, key_of = the argument-derived key (injective on A), size = size of a
-   pickled value.  Histories are lists of any length; worlds hold any number of instances and one disk. *)
-From Coq Require Import ZArith List Bool.
-From DM Require Import Gen.KMemo Spec.Memo Model.Memo Proofs.MemoFacts Run.SC20 Run.RC20 Proofs.MemoRunFacts.
+   equivalence, f = the wrapped body, key_of = the argument-derived key (arguments with the same key are arguments
+   the body does not tell apart: e.g. an injective key), size = size of a pickled value.  Histories are lists of any length; worlds hold any number of instances and one disk. *)
+From Coq Require Import ZArith List Bool String Ascii.
+From DM Require Import Base.PyVal Gen.KMemo Spec.Memo Model.Memo Proofs.MemoFacts Run.SC20 Run.RC20 Proofs.MemoRunFacts
+                       Spec.MemoKey Model.MemoKey Proofs.MemoKeyFacts Proofs.MemoKeyedFacts Proofs.MemoSerialFacts.
 Import ListNotations.
 Open Scope Z_scope.
 
@@ -14,7 +15,7 @@ Theorem C20_memo_transparent :
   forall (A K V F : Type) (f : A -> V) (key_of : A -> K) (thunks : A -> nat) (size : V -> Z)
          (keqb : K -> K -> bool) (feqb : F -> F -> bool),
     (forall a b : K, keqb a b = true <-> a = b) -> (forall a b : F, feqb a b = true <-> a = b) ->
-    (forall a b : A, key_of a = key_of b -> a = b) ->
+    (forall a b : A, key_of a = key_of b -> f a = f b) ->
     forall ops : list (op A K F),
       Forall (fun p => match p with ONew o => opts_ok A K F key_of o | _ => True end) ops ->
       tr_ok A K V F (EV_tr A K V F f) [] (snd (wrun A K V F f key_of thunks size keqb feqb w0 ops)).
@@ -26,7 +27,7 @@ Theorem C20_memo_transparent_inv :
   forall (A K V F : Type) (f : A -> V) (key_of : A -> K) (thunks : A -> nat) (size : V -> Z)
          (keqb : K -> K -> bool) (feqb : F -> F -> bool),
     (forall a b : K, keqb a b = true <-> a = b) -> (forall a b : F, feqb a b = true <-> a = b) ->
-    (forall a b : A, key_of a = key_of b -> a = b) ->
+    (forall a b : A, key_of a = key_of b -> f a = f b) ->
     forall (w : world K V F) (ops : list (op A K F)),
       WI K V F (PI_tr A K V F f key_of) (PD_tr A K V F f key_of) w ->
       Forall (fun p => match p with ONew o => opts_ok A K F key_of o | _ => True end) ops ->
@@ -119,7 +120,7 @@ Theorem C20_memo_persistent_shared :
       persistent o' = true -> folder o' = folder o -> key A K F key_of o' a = key A K F key_of o a ->
       let w2 := fst (wrun A K V F f key_of thunks size keqb feqb
                           (fst (wstep A K V F f key_of thunks size keqb feqb w (OCall i a))) mid) in
-      let j := length (insts w2) in
+      let j := List.length (insts w2) in
       exists ev1 ev2 : event K V,
         snd (wstep A K V F f key_of thunks size keqb feqb w (OCall i a)) = TCall i a ev1 /\
         snd (wrun A K V F f key_of thunks size keqb feqb w2 [ONew o'; OCall j a]) = [TNew o'; TCall j a ev2] /\
@@ -159,7 +160,7 @@ Theorem C20_model_accepted :
   forall (A K V F : Type) (f : A -> V) (key_of : A -> K) (thunks : A -> nat) (size : V -> Z)
          (keqb : K -> K -> bool) (veqb : V -> V -> bool) (feqb : F -> F -> bool),
     (forall a b : K, keqb a b = true <-> a = b) -> (forall a b : F, feqb a b = true <-> a = b) ->
-    (forall v : V, veqb v v = true) -> (forall a b : A, key_of a = key_of b -> a = b) ->
+    (forall v : V, veqb v v = true) -> (forall a b : A, key_of a = key_of b -> f a = f b) ->
     forall ops : list (op A K F),
       Forall (new_ok A K F key_of) ops ->
       accept A K V F f key_of thunks size keqb veqb feqb w0
@@ -173,6 +174,161 @@ Theorem C20_oracle_accepts_model :
     Forall (new_ok nat Z Z ckey) ops -> oracle sizes (model_trace sizes ops) = true.
 Proof. exact oracle_accepts_model. Qed.
 Print Assumptions C20_oracle_accepts_model.
+
+(* ================= the key derivation (Spec/MemoKey.v, Model/MemoKey.v) =================
+   arg / call: the argument alphabet; call_eqvb: "the same argument list" (L0: tuple ~ list, keyword and dict order
+   irrelevant, everything else distinguished); memkey_text: the text _memkey hashes, computed as the code does
+   (dispatch chain, sort key and list elements regenerated from the source; json.dumps on scalars and repr by explicit
+   printers); call_okb: the alphabet of the theorems (every string -- str arguments, dict keys, keyword names, the
+   function name, the JSON text of a DataMatrix -- is printable ASCII, quote characters and backslashes included:
+   the escaping done by json.dumps and by repr is inside the proof; control and non-ASCII characters are inside
+   the model and the correspondence only; finite floats; identifiers as callable names; the JSON text of a
+   DataMatrix is an opaque string starting with a brace -- that it determines the table is C17_json_injective;
+   json.dumps writes printable ASCII only, so every DataMatrix is covered).
+   Premises that are hypotheses, not theorems: float_repr (float.__repr__ through json.dumps) is injective on finite
+   floats and has the shape float_textb; md5 is injective on the hashed texts (md5_injective). *)
+
+(* two argument lists (of possibly different functions) with the same hashed text are the same argument list of
+   the same function *)
+Theorem C20_key_text_injective :
+  forall float_repr : fl -> text,
+    (forall f g, float_okb f = true -> float_okb g = true -> float_repr f = float_repr g -> f = g) ->
+    (forall f, float_okb f = true -> float_textb (float_repr f) = true) ->
+    forall (name name' : string) (c c' : call),
+      call_okb name c = true -> call_okb name' c' = true ->
+      memkey_text float_repr name c = memkey_text float_repr name' c' ->
+      name = name' /\ call_eqvb c c' = true.
+Proof. exact key_text_injective. Qed.
+Print Assumptions C20_key_text_injective.
+
+(* the same argument list gets the same text: tuple or list, keywords and dict items in any order *)
+Theorem C20_key_text_complete :
+  forall (float_repr : fl -> text) (name : string) (c c' : call),
+    call_okb name c = true -> call_okb name c' = true -> call_eqvb c c' = true ->
+    memkey_text float_repr name c = memkey_text float_repr name c'.
+Proof. exact key_text_complete. Qed.
+Print Assumptions C20_key_text_complete.
+
+(* the key itself, md5 taken as injective on the texts *)
+Theorem C20_key_injective :
+  forall float_repr : fl -> text,
+    (forall f g, float_okb f = true -> float_okb g = true -> float_repr f = float_repr g -> f = g) ->
+    (forall f, float_okb f = true -> float_textb (float_repr f) = true) ->
+    forall (K : Type) (md5 : text -> K),
+      (forall a b : text, md5 a = md5 b -> a = b) ->
+      forall (name name' : string) (c c' : call),
+        call_okb name c = true -> call_okb name' c' = true ->
+        memkey_md5 float_repr md5 name c = memkey_md5 float_repr md5 name' c' ->
+        name = name' /\ call_eqvb c c' = true.
+Proof. exact key_injective. Qed.
+Print Assumptions C20_key_injective.
+
+Theorem C20_key_complete :
+  forall (float_repr : fl -> text) (K : Type) (md5 : text -> K) (name : string) (c c' : call),
+    call_okb name c = true -> call_okb name c' = true -> call_eqvb c c' = true ->
+    memkey_md5 float_repr md5 name c = memkey_md5 float_repr md5 name c'.
+Proof. exact key_complete. Qed.
+Print Assumptions C20_key_complete.
+
+(* repr of the serialised structure (strings of printable ASCII between the quote character repr chooses, with
+   backslash and that quote escaped; lists; dicts) is self-delimiting: a text has one reading *)
+Theorem C20_repr_self_delimiting :
+  forall x y : ser, ser_okb x = true -> ser_okb y = true -> repr_ser x = repr_ser y -> x = y.
+Proof. exact repr_ser_inj. Qed.
+Print Assumptions C20_repr_self_delimiting.
+
+(* transparency with THIS key: arguments = argument lists of the alphabet, key = md5 of the hashed text, body = any
+   function that does not tell the same argument list apart (a tuple from a list, one keyword order from another):
+   in every history from the initial world every call without an explicit key returns body(args) *)
+Theorem C20_keyed_transparent :
+  forall (V F K : Type) (float_repr : fl -> text),
+    (forall f g, float_okb f = true -> float_okb g = true -> float_repr f = float_repr g -> f = g) ->
+    (forall f, float_okb f = true -> float_textb (float_repr f) = true) ->
+    forall md5 : text -> K, (forall a b : text, md5 a = md5 b -> a = b) ->
+    forall (name : string) (body : call -> V),
+      (forall c c', call_eqvb c c' = true -> body c = body c') ->
+    forall (nthunks : call -> nat) (size : V -> Z) (keqb : K -> K -> bool) (feqb : F -> F -> bool),
+      (forall a b : K, keqb a b = true <-> a = b) -> (forall a b : F, feqb a b = true <-> a = b) ->
+    forall ops : list (op (okcall name) K F),
+      Forall (fun p => match p with ONew o => opts_ok (okcall name) K F (kkey K float_repr md5 name) o | _ => True end) ops ->
+      tr_ok (okcall name) K V F (EV_tr (okcall name) K V F (kf V name body)) []
+            (snd (wrun (okcall name) K V F (kf V name body) (kkey K float_repr md5 name) (kthunks name nthunks)
+                       size keqb feqb w0 ops)).
+Proof. exact keyed_transparent. Qed.
+Print Assumptions C20_keyed_transparent.
+
+(* at most once with THIS key, per argument list up to the property's equivalence: in a clear-free history of one
+   instance without an explicit key in which no store evicts, the body runs at most once on argument lists that
+   are the same as c0 (whatever mixture of tuples / lists / keyword orders the calls use) *)
+Theorem C20_keyed_at_most_once :
+  forall (V F K : Type) (float_repr : fl -> text),
+    (forall f g, float_okb f = true -> float_okb g = true -> float_repr f = float_repr g -> f = g) ->
+    (forall f, float_okb f = true -> float_textb (float_repr f) = true) ->
+    forall md5 : text -> K, (forall a b : text, md5 a = md5 b -> a = b) ->
+    forall (name : string) (body : call -> V) (nthunks : call -> nat) (size : V -> Z)
+           (keqb : K -> K -> bool) (feqb : F -> F -> bool),
+      (forall a b : K, keqb a b = true <-> a = b) -> (forall a b : F, feqb a b = true <-> a = b) ->
+    forall (o : opts K F) (st : inst K V) (d : list (F * K * V)) (ops : list (iop (okcall name))) (c0 : okcall name),
+      xkey o = None ->
+      clear_free (okcall name) ops ->
+      evict_free (okcall name) K V F (kf V name body) (kkey K float_repr md5 name) (kthunks name nthunks)
+                 size keqb feqb o st d ops ->
+      (runs_eqv V K name c0
+         (fst (fst (irun (okcall name) K V F (kf V name body) (kkey K float_repr md5 name) (kthunks name nthunks)
+                         size keqb feqb o st d ops))) <= 1)%nat.
+Proof. exact keyed_at_most_once. Qed.
+Print Assumptions C20_keyed_at_most_once.
+
+(* ================= the stores hold serialised copies (Model/Memo.v, Section MemoSerialised) =================
+   dumps / loads = pickle.dumps / pickle.loads, psize = sys.getsizeof of the bytes.  The only thing assumed about
+   pickle is the round trip loads (dumps v) = v (and only where stated). *)
+
+(* the serialised model produces, from the pickled image of any by-value world, the same trace as the by-value
+   model (whose size function is the size of the pickle) and ends in the pickled image of its final world: every
+   theorem above about traces holds for the model whose stores hold bytes *)
+Theorem C20_serialised_simulates :
+  forall (A K V P F : Type) (f : A -> V) (key_of : A -> K) (thunks : A -> nat)
+         (dumps : V -> P) (loads : P -> V) (psize : P -> Z) (keqb : K -> K -> bool) (feqb : F -> F -> bool),
+    (forall v, loads (dumps v) = v) ->
+    forall (ops : list (op A K F)) (w : world K V F),
+      wrun_s A K V P F f key_of thunks dumps loads psize keqb feqb (pw K V P F dumps w) ops
+      = (pw K V P F dumps (fst (wrun A K V F f key_of thunks (vsize V P dumps psize) keqb feqb w ops)),
+         snd (wrun A K V F f key_of thunks (vsize V P dumps psize) keqb feqb w ops)).
+Proof. exact wrun_sim. Qed.
+Print Assumptions C20_serialised_simulates.
+
+(* ... e.g. transparency *)
+Theorem C20_serialised_transparent :
+  forall (A K V P F : Type) (f : A -> V) (key_of : A -> K) (thunks : A -> nat)
+         (dumps : V -> P) (loads : P -> V) (psize : P -> Z) (keqb : K -> K -> bool) (feqb : F -> F -> bool),
+    (forall v, loads (dumps v) = v) ->
+    (forall a b : K, keqb a b = true <-> a = b) -> (forall a b : F, feqb a b = true <-> a = b) ->
+    (forall a b : A, key_of a = key_of b -> f a = f b) ->
+    forall ops : list (op A K F),
+      Forall (fun p => match p with ONew o => opts_ok A K F key_of o | _ => True end) ops ->
+      tr_ok A K V F (EV_tr A K V F f) []
+            (snd (wrun_s A K V P F f key_of thunks dumps loads psize keqb feqb w0 ops)).
+Proof. exact serial_transparent_w0. Qed.
+Print Assumptions C20_serialised_transparent.
+
+(* isolation, as far as a by-value model can say it: from ANY state of the serialised model (no assumption on
+   pickle), a call that executes stores dumps (f a), and the next call with the same arguments does not execute and
+   returns loads (dumps (f a)) -- an object rebuilt from the stored bytes, not the object handed out before; no
+   state of this model holds a value, only bytes.  (Coq values are immutable: that the implementation really does
+   not keep or hand out a shared object is probed by the harness after every call, not proved.) *)
+Theorem C20_serialised_isolation :
+  forall (A K V P F : Type) (f : A -> V) (key_of : A -> K) (thunks : A -> nat)
+         (dumps : V -> P) (loads : P -> V) (psize : P -> Z) (keqb : K -> K -> bool) (feqb : F -> F -> bool),
+    (forall a b : K, keqb a b = true <-> a = b) -> (forall a b : F, feqb a b = true <-> a = b) ->
+    forall (o : opts K F) (st : inst K P) (d : list (F * K * P)) (a : A)
+           (ev1 : event K V) (st1 : inst K P) (d1 : list (F * K * P)),
+      icall_s A K V P F f key_of thunks dumps loads psize keqb feqb o st d a = (ev1, st1, d1) ->
+      e_ran ev1 = true -> fits_s K P F psize o (dumps (f a)) ->
+      forall (ev2 : event K V) (st2 : inst K P) (d2 : list (F * K * P)),
+        icall_s A K V P F f key_of thunks dumps loads psize keqb feqb o st1 d1 a = (ev2, st2, d2) ->
+        e_ran ev2 = false /\ e_ret ev2 = loads (dumps (f a)) /\ cache st2 = cache st1 /\ d2 = d1.
+Proof. exact serial_isolation. Qed.
+Print Assumptions C20_serialised_isolation.
 
 (* ---- non-vacuity ---- *)
 Definition ex_sizes : list (Z * Z) := [(1, 100); (2, 100); (3, 100)].
@@ -209,3 +365,58 @@ Example C20_ex_rejects_lifo :
   oracle ex_sizes [tN (mo false None false 250 0); tC 0 1 (me 1 true 0 [1] 100 []); tC 0 2 (me 2 true 0 [1; 2] 200 []);
                    tC 0 3 (me 3 true 0 [1; 2] 200 [])] = false.
 Proof. vm_compute. reflexivity. Qed.
+
+(* ---- the key derivation: non-vacuity ---- *)
+(* the hypotheses about the float printer and about md5 are satisfiable (a printer of the required shape that is
+   injective on finite floats; the identity as "hash") *)
+Example C20_ex_key_hypotheses_satisfiable :
+  (forall f g, float_okb f = true -> float_okb g = true -> demo_float_repr f = demo_float_repr g -> f = g)
+  /\ (forall f, float_okb f = true -> float_textb (demo_float_repr f) = true)
+  /\ (forall a b : text, (fun t : text => t) a = (fun t : text => t) b -> a = b).
+Proof. split; [exact demo_float_repr_inj|split; [exact demo_float_repr_shape|auto]]. Qed.
+
+Definition ex_fr : fl -> text := ftab_repr [(FFin false 1 0, "1.0"%string); (FFin false 3 (-1), "1.5"%string)].
+Definition ex_text (a : list arg) (k : list (string * arg)) : string :=
+  string_of_list_ascii (memkey_text ex_fr "f" (mkcall a k)).
+(* (1,) (1.0,) (True,) ('1',) (None,): five different texts, five different argument lists (Python's == identifies
+   the first three) *)
+Example C20_ex_key_scalars :
+  map (fun x => ex_text [x] []) [AInt 1; AFloat (FFin false 1 0); ABool true; AStr "1"; ANone]
+  = ["['f', ['1'], {}]"; "['f', ['1.0'], {}]"; "['f', ['true'], {}]"; "['f', ['""1""'], {}]"; "['f', ['null'], {}]"]%string
+  /\ forallb (fun x => forallb (fun y => Bool.eqb (arg_eqvb x y) (call_eqvb (mkcall [x] []) (mkcall [y] [])))
+                               [AInt 1; AFloat (FFin false 1 0); ABool true; AStr "1"; ANone])
+             [AInt 1; AFloat (FFin false 1 0); ABool true; AStr "1"; ANone] = true
+  /\ arg_eqvb (AInt 1) (AFloat (FFin false 1 0)) = false /\ arg_eqvb (AInt 1) (ABool true) = false
+  /\ arg_eqvb (AInt 1) (AStr "1") = false /\ arg_eqvb (AFloat (FFin false 1 0)) (ABool true) = false.
+Proof. vm_compute. repeat split; reflexivity. Qed.
+(* f((1, 2)) and f([1, 2]): the same argument list, the same text; f(1, 2) is another one *)
+Example C20_ex_key_tuple_list :
+  ex_text [ATuple [AInt 1; AInt 2]] [] = ex_text [AList [AInt 1; AInt 2]] []
+  /\ call_eqvb (mkcall [ATuple [AInt 1; AInt 2]] []) (mkcall [AList [AInt 1; AInt 2]] []) = true
+  /\ ex_text [AInt 1; AInt 2] [] <> ex_text [AList [AInt 1; AInt 2]] []
+  /\ call_eqvb (mkcall [AInt 1; AInt 2] []) (mkcall [AList [AInt 1; AInt 2]] []) = false.
+Proof. vm_compute. repeat split; auto; discriminate. Qed.
+(* f(a=1, b=2) and f(b=2, a=1); a dict written in two orders (sorted by the repr of the key: 'a!' before 'a') *)
+Example C20_ex_key_keyword_order :
+  ex_text [] [("a", AInt 1); ("b", AInt 2)]%string = ex_text [] [("b", AInt 2); ("a", AInt 1)]%string
+  /\ ex_text [ADict [("a", AInt 1); ("a!", AInt 2)]%string] [] = "['f', [{'a!': '2', 'a': '1'}], {}]"%string
+  /\ ex_text [ADict [("a!", AInt 2); ("a", AInt 1)]%string] [] = "['f', [{'a!': '2', 'a': '1'}], {}]"%string
+  /\ call_eqvb (mkcall [] [("a", AInt 1); ("b", AInt 2)]%string) (mkcall [] [("b", AInt 2); ("a", AInt 1)]%string) = true
+  /\ call_eqvb (mkcall [] [("a", AInt 1); ("b", AInt 2)]%string) (mkcall [] [("a", AInt 2); ("b", AInt 1)]%string) = false.
+Proof. vm_compute. repeat split; auto. Qed.
+(* the alphabet predicate holds for a call with every kind of argument (the premises of the theorems are inhabited) *)
+Example C20_ex_key_alphabet :
+  call_okb "f" (mkcall [AInt (-3); AFloat (FFin false 3 (-1)); ABool false; AStr "a b"; ANone;
+                        AList [ATuple [AInt 1]; ADict [("k", AStr "x")]%string];
+                        ADM "{""rowid"": [0], ""columns"": {""a"": [""MixedColumn"", [1]]}}"; AFun (Some "th_1"%string); AFun None]
+                       [("z", ATuple [AInt 4; AInt 5])]%string) = true
+  /\ call_okb "f" (mkcall [AStr "it's a ""\"""; ADM "{""a"": ""\u00e9 it's""}"] [("k'", ANone)]%string) = true
+  /\ call_okb "f" (mkcall [AStr (sb [9%nat])] []) = false.
+Proof. vm_compute. auto. Qed.
+(* quotes and backslashes: strings that differ only in what gets escaped still get different texts; a key holding a
+   single quote is written between double quotes *)
+Example C20_ex_key_escapes :
+  map (fun x => ex_text [x] []) [AStr "a'b"; AStr "a\'b"; AStr "a""b"; AStr "a', 'b"]
+  = ["['f', ['""a\'b""'], {}]"; "['f', ['""a\\\\\'b""'], {}]"; "['f', ['""a\\""b""'], {}]"; "['f', ['""a\', \'b""'], {}]"]%string
+  /\ ex_text [] [("it's", AInt 1)]%string = "['f', [], {""it's"": '1'}]"%string.
+Proof. vm_compute. auto. Qed.
